@@ -27,6 +27,12 @@ PROPS = {
 
 PROPS["C04"] = dict(l1_ops=["rplus", "lplus", "rminus", "lminus", "between"] + l1.ALIASES, l2="C04",
                     n_l1=(900, 12000), n_l2=(400, 12000), l1_masks=True)
+PROPS["C15"] = dict(l1_ops=[], l1_algo=["interp_slerp", "interp_cubic", "interp_smooth", "phi"], l2_algo="C15",
+                    n_l1=(60, 600), n_l2=(10, 200))
+PROPS["C16"] = dict(l1_ops=[], l1_algo=["avg_bi", "avg_w", "avg_fl", "avg_fr"], l2_algo="C16",
+                    n_l1=(30, 300), n_l2=(6, 80))
+PROPS["C17"] = dict(l1_ops=[], l1_algo=["decasteljau"], l2_algo="C17", box=True,
+                    n_l1=(60, 600), n_l2=(10, 150))
 PROPS["C07"] = dict(l1_ops=["hat", "vee", "generator", "innerWeights", "bracket", "inner", "sqwnorm", "wnorm"],
                     l2="C07", n_l1=(400, 6000), n_l2=(80, 2000))
 
@@ -116,9 +122,12 @@ def run_property(pid, thorough, seed, res):
     for dbg in (True, False):
         reqs = []
         for g in MODELLED:
-            reqs += l1.requests_for(r, g, max(1, n1 // (2 * len(cfg["l1_ops"]))), dbg,
-                                    storages=("o", "m", "c"), ops=cfg["l1_ops"],
-                                    norm=("valid" if dbg else "any"))
+            if cfg["l1_ops"]:
+                reqs += l1.requests_for(r, g, max(1, n1 // (2 * len(cfg["l1_ops"]))), dbg,
+                                        storages=("o", "m", "c"), ops=cfg["l1_ops"],
+                                        norm=("valid" if dbg else "any"))
+            if cfg.get("l1_algo"):
+                reqs += l1.algo_requests(builds[dbg], r, g, max(1, n1 // (2 * len(cfg["l1_algo"]))), dbg, ops=cfg["l1_algo"])
         impl, model = l1.run(reqs, builds[dbg])
         n_lines += len(reqs)
         for (line, tags), a, b in zip(reqs, impl, model):
@@ -138,7 +147,12 @@ def run_property(pid, thorough, seed, res):
     broken = (not po["ok"]) or bool(l1_bad)
     cs = []
     for g in ALL_GROUPS:
-        cs += l2.cases(cfg["l2"], r, g, max(1, n2 // len(ALL_GROUPS)) * (4 if broken else 1))
+        if cfg.get("l2"):
+            cs += l2.cases(cfg["l2"], r, g, max(1, n2 // len(ALL_GROUPS)) * (4 if broken else 1))
+        if cfg.get("l2_algo"):
+            cs += l2.cases_algo(cfg["l2_algo"], r, g, n2 * (2 if broken else 1), builds[True])
+    if cfg.get("box"):
+        cs += l2.cases_c17_box()
     def valid_input(b):       # directed cases must be inputs the property quantifies over
         return not any(x in t for t in b["tags"] for x in ("norm+1.1", "norm-1.1", "norm+10", "norm-10", "normfar"))
     for b in [b for b in l1_bad if valid_input(b)][:400]:
